@@ -35,8 +35,8 @@ from checks import _faults as F
 PROPERTY = "C27"
 LEVEL = "fault_enumeration"
 RULE = (
-    "random: config (pre_ping, handle_error listener none|promote|nopool|promote+nopool, 1-2 Connections) x history (<=20 ops of exec / begin / "
-    "begin_nested / sp_commit / sp_rollback / commit / rollback / close / connect on connection[i]) x fault plan (1-4 faults [site, k, disconnect|error] over "
+    "random: config (pre_ping, handle_error listener none|promote|nopool|promote+nopool, 1-2 Connections, pool_recycle none|large|small) x history (<=20 ops of exec / begin / "
+    "begin_nested / sp_commit / sp_rollback / commit / rollback / close / connect / soft-invalidate / virtual-clock tick on connection[i]) x fault plan (1-4 faults [site, k, disconnect|error] over "
     "cursor/execute/commit/rollback/connect/ping/close). enum: fixed 14-op two-connection history x 4 configs x every single fault position (site, k, kind) "
     "[thorough: + every pair]. Non-trivial: an effective disconnect fired while a transaction or savepoint was open, or on commit / rollback itself, and "
     ">=2 further ops followed on that Connection; distinct = canonical JSON of (cfg, ops, plan)"
@@ -94,7 +94,8 @@ class _Run:
         self.cfg = cfg = case["cfg"]
         self.clock = F.VClock()
         self.db = F.ClockedDB(self.clock)
-        self.eng = self.db.engine(pool_pre_ping=cfg["pre_ping"])
+        self.recycle = cfg.get("recycle", -1)
+        self.eng = self.db.engine(pool_pre_ping=cfg["pre_ping"], pool_recycle=self.recycle)
         self.promote = "promote" in cfg["listener"]
         self.nopool = "nopool" in cfg["listener"]
         if cfg["listener"] != "none":
@@ -107,6 +108,7 @@ class _Run:
         self.nontrivial = False
         self.excluded = []
         self.may_close = set()  # connections the pool is entitled to close (model-derived)
+        self.soft_seen = False
         self.close_pos = 0
         self.inj_pos = 0
 
@@ -125,6 +127,7 @@ class _Run:
         self.n_log = len(self.db.log)
         self.existing = {c.id for c in self.db.conns}
         self.open_before = set(F.open_ids(self.db))
+        self.t0 = self.clock.now
         self.bans.sync_dead_and_closed()
         self.banned_before = dict(self.bans.reason)
 
@@ -271,6 +274,10 @@ class _Run:
                     raise Violation(f"C27/reuse/{F._slug(self.banned_before[cid])}", f"{label}: DBAPI connection {cid} was handed out although {self.banned_before[cid]}; {self.T()}", observed=cid)
             else:
                 self.bans.check_handed_out("C27", cid, f"{label}; {self.T()}")
+            if cid in self.existing:
+                dbc = next(x for x in self.db.conns if x.id == cid)
+                if self.recycle > 0 and self.t0 - dbc.opened_at > self.recycle + 1:
+                    raise Violation("C27/reuse/older-than-pool_recycle", f"{label}: DBAPI connection {cid} aged {self.t0 - dbc.opened_at:.0f}s handed out with pool_recycle={self.recycle}; {self.T()}")
             for o in self.conns:
                 if o is not c and not o.closed and o.cid == cid:
                     raise Violation("C27/reuse/held-by-another-connection", f"{label}: DBAPI connection {cid} is in use by the other Connection; {self.T()}")
@@ -508,6 +515,18 @@ class _Run:
                             f"savepoint (in_nested_transaction()={c.obj.in_nested_transaction()}); a failed savepoint left this way makes every execute raise "
                             f"PendingRollbackError and Connection.rollback() cannot clear it; {self.T()}", observed="savepoint still attached", expected="no nested transaction")
 
+    def op_soft(self, c):
+        """soft invalidation of a healthy Connection's pooled connection: it keeps working for this holder and must be
+        replaced the next time it is checked out"""
+        if c.obj is None or c.closed or c.invalid or c.cid is None:
+            return
+        self.begin_op()
+        c.obj.connection.invalidate(soft=True)
+        self.bans.ban(c.cid, "it was soft-invalidated")
+        self.may_close.add(c.cid)
+        self.soft_seen = True
+        self.cls.add("soft-invalidate")
+
     def op_close(self, c):
         if c.obj is None or c.closed:
             return
@@ -557,6 +576,15 @@ class _Run:
         while self.close_pos < len(log):
             cid, site, _ = log[self.close_pos]
             self.close_pos += 1
+            if site == "close" and self.recycle > 0 and cid in self.generation_banned and not next(x for x in self.db.conns if x.id == cid).dead:
+                self.cls.add("invalidated-pooled-connection-discarded+recycle")  # the branch behind the age test in get_connection()
+            if site == "close" and self.recycle > 0 and self.bans.reason.get(cid) == "it was soft-invalidated":
+                self.cls.add("soft-invalidated-connection-discarded+recycle")
+            if site == "close" and cid not in self.may_close and self.recycle > 0:
+                dbc = next((x for x in self.db.conns if x.id == cid), None)
+                if dbc is not None and self.clock.now - dbc.opened_at > self.recycle:
+                    self.cls.add("recycled-by-age")
+                    continue
             if site == "close" and cid not in self.may_close:
                 raise Violation("C27/pool/healthy-connection-closed", f"after {after}: close() on DBAPI connection {cid} although no disconnect / invalidation concerns it "
                                 f"(listener={self.cfg['listener']}); {self.T()}", observed=cid)
@@ -616,6 +644,11 @@ def _run_case(case, ctx, enum=False):
                         run.op_close(c)
                     elif k == "connect":
                         run.op_connect(c)
+                    elif k == "tick":
+                        run.clock.advance(100)
+                        run.cls.add("tick")
+                    elif k == "soft":
+                        run.op_soft(c)
                     else:
                         raise ValueError(k)
                     run.check_all(run.trace[-1])
@@ -626,6 +659,7 @@ def _run_case(case, ctx, enum=False):
                 nontrivial = run.nontrivial or (enum and any(k.startswith("fired:") for k in run.cls))
                 classes = set(run.cls)
                 classes.add(f"listener:{run.cfg['listener']}")
+                classes.add("recycle:" + ("none" if run.recycle < 0 else "large" if run.recycle > 1000 else "small"))
                 classes.add(f"faults-fired:{min(fired, 3)}")
                 if any(c.disc_in_txn for c in run.conns):
                     classes.add("disconnect-with-transaction-open")
@@ -654,13 +688,14 @@ def check_enum(case, ctx):
 
 # ------------------------------------------------------------------ generators
 _cfg = st.builds(
-    lambda pre_ping, listener, nconn: {"pre_ping": pre_ping, "listener": listener, "nconn": nconn},
+    lambda pre_ping, listener, nconn, recycle: {"pre_ping": pre_ping, "listener": listener, "nconn": nconn, "recycle": recycle},
     st.booleans(),
     st.sampled_from(["none", "none", "promote", "nopool", "promote+nopool"]),
     st.sampled_from([1, 2, 2]),
+    st.sampled_from([-1, -1, 100000, 100000, 30]),  # none / large (never elapses) / small (elapses after a tick of the virtual clock)
 )
 _ci = st.integers(0, 1)
-_opk = st.sampled_from(["exec"] * 7 + ["sp", "sp", "sp_commit", "sp_rollback", "commit", "commit", "rollback", "rollback", "rollback", "begin", "close", "connect"])
+_opk = st.sampled_from(["exec"] * 7 + ["sp", "sp", "sp_commit", "sp_rollback", "commit", "commit", "rollback", "rollback", "rollback", "begin", "close", "close", "connect", "connect", "soft", "tick"])
 
 
 @st.composite
@@ -683,15 +718,25 @@ def _cases(draw):
         seen.add((site, k))
         plan.append([site, k, draw(st.sampled_from(["disconnect", "error"]))])
     ops = [[draw(_opk), draw(st.sampled_from([0, 0, 0, 1]))] for _ in range(draw(st.integers(8, 20)))]
+    if cfg["nconn"] == 2 and draw(st.integers(0, 2)) == 0:
+        # scenario: a second pooled connection (idle, or returned later / soft-invalidated) predates a disconnect on connection 0
+        # and is then checked out again
+        head = [["exec", 0], ["exec", 1]] + draw(st.sampled_from([[["commit", 1], ["close", 1]], [["commit", 1]], [["soft", 1], ["commit", 1]], []]))
+        tail = [["rollback", 0], ["exec", 0], ["rollback", 1], ["close", 1], ["connect", 1], ["exec", 1]]
+        if draw(st.booleans()):
+            tail.insert(0, ["tick", 0])
+        ops = head + ops[: draw(st.integers(1, 6))] + tail
+        if not any(f[0] in ("execute", "cursor") and f[2] == "disconnect" for f in plan):
+            plan = [["execute", draw(st.integers(2, 4)), "disconnect"]] + [f for f in plan if f[0] != "execute"]
     return {"cfg": cfg, "ops": ops, "plan": plan}
 
 
 ENUM_OPS = [["exec", 0], ["sp", 0], ["exec", 0], ["sp_commit", 0], ["exec", 1], ["commit", 0], ["exec", 0], ["rollback", 0], ["exec", 1], ["exec", 0], ["commit", 1], ["close", 0], ["connect", 0], ["exec", 0]]
 ENUM_CFGS = [
-    {"pre_ping": False, "listener": "none", "nconn": 2},
-    {"pre_ping": True, "listener": "none", "nconn": 2},
-    {"pre_ping": False, "listener": "promote", "nconn": 2},
-    {"pre_ping": True, "listener": "nopool", "nconn": 2},
+    {"pre_ping": False, "listener": "none", "nconn": 2, "recycle": -1},
+    {"pre_ping": True, "listener": "none", "nconn": 2, "recycle": 100000},
+    {"pre_ping": False, "listener": "promote", "nconn": 2, "recycle": 100000},
+    {"pre_ping": True, "listener": "nopool", "nconn": 2, "recycle": -1},
 ]
 ENUM_BOUNDS = {"cursor": 9, "execute": 9, "commit": 3, "rollback": 4, "connect": 3, "ping": 3, "close": 3}
 
